@@ -76,6 +76,7 @@ def check(run):
     run.check(bool(clr) and q.on_all_paths(osw, [a.site for a in clr]), 'R4', 'pipeline-writer-released', H + '::on_server_write', osw.loc(), 'm_writing_to_server is not cleared on every path: later requests are never written', 'cleared on every path')
     orr = f('on_read_request')
     run.touch(orr)
+    q.alias_local(orr, 'req_len', init_re=r'find_request_len\(')      # whatever the local is called
     pr_ = [c for c in orr.calls() if q.callee_name(c) == 'sim::parse_request']
     fw_ = [c for c in orr.calls() if c.get('usr') == fr.usr]
     popc = [c for c in orr.calls() if q.callee_name(c) == 'memmove']
